@@ -23,6 +23,7 @@ package input
 import (
 	"errors"
 	"fmt"
+	"strings"
 
 	"github.com/gontainer/gontainer-helpers/v3/grouperror"
 	"golang.org/x/mod/semver"
@@ -65,8 +66,14 @@ func (v *VersionValidator) ValidateVersion(i Input) (err error) {
 		err = grouperror.Prefix(fmt.Sprintf("version: current: %s, given: %s: ", v.version, *i.Version), err)
 	}()
 
+	// semver requires the "v" prefix, the version in the configuration is written without it
+	givenVersion := string(*i.Version)
+	if !strings.HasPrefix(givenVersion, "v") {
+		givenVersion = "v" + givenVersion
+	}
+
 	curr := semver.MajorMinor(v.version) + ".0"
-	given := semver.MajorMinor(string(*i.Version)) + ".0"
+	given := semver.MajorMinor(givenVersion) + ".0"
 
 	if semver.Major(v.version) == "v0" {
 		if curr != given {
@@ -75,7 +82,7 @@ func (v *VersionValidator) ValidateVersion(i Input) (err error) {
 		return
 	}
 
-	if semver.Major(v.version) != semver.Major(string(*i.Version)) {
+	if semver.Major(v.version) != semver.Major(givenVersion) {
 		return errors.New("incompatible versions")
 	}
 
